@@ -14,7 +14,9 @@ Ports:
 * `lexOne`                  — `rusty_parser::tokens::any_token()` (any_token.rs: eol, whitespace, digits,
                               any_keyword, identifier, oct_digits, hex_digits, gt_or_ge, lt_or_le_or_ne, equals,
                               any_symbol, in this order, first success wins, soft failures backtrack)
-* `lex`                     — repeated `any_token()` until end of input or the fatal `IdentifierTooLong`
+* `lex`                     — repeated `any_token()` until end of input (the tokenizer has no fatal error:
+                              identifier tokens have any length)
+* `nameTooLong`             — the length check of `rusty_parser/src/core/name.rs::identifier` (names only)
 * `commonSeparator`         — `common_separator()` of rusty_parser/src/core/statement_separator.rs, on tokens
 * `charToAlphabetIndex`     — `char_to_alphabet_index` of rusty_linter/src/core/type_resolver_impl.rs
 * `norm`                    — NOT a port: the token-level normal form the property is stated with.
@@ -81,7 +83,6 @@ def isKeyword (s : List Nat) : Bool := (kwLookup s).isSome
 
 inductive Kind where
   | eol | ws | digits | ge | gt | le | lt | eq | ne | keyword | ident | oct | hex | symbol
-  | errTooLong
   deriving DecidableEq, Repr, Inhabited
 
 structure Tok where
@@ -93,7 +94,6 @@ structure Tok where
 inductive Step where
   | eof
   | tok (k : Kind) (n : Nat)
-  | tooLong
   deriving DecidableEq, Repr
 
 /-- `is_allowed_char_after_keyword`, applied to the peeked character (`none` = end of input). -/
@@ -129,11 +129,10 @@ def ampersand (cs : List Nat) : Step :=
   | [] => .tok .symbol 1
 
 /-- A run of letters starts here: keyword if the whole run is one and the next character allows it,
-otherwise an identifier (letter, then letters / digits / dots; at most 40 characters). -/
+otherwise an identifier (letter, then letters / digits / dots; any length). -/
 def word (c : Nat) (cs : List Nat) : Step :=
   if isKeyword (c :: cs.takeWhile isLetter) && allowedAfterKeyword (cs.dropWhile isLetter).head? then
     .tok .keyword (1 + (cs.takeWhile isLetter).length)
-  else if 40 < 1 + (cs.takeWhile isIdentChar).length then .tooLong
   else .tok .ident (1 + (cs.takeWhile isIdentChar).length)
 
 /-- One call of `any_token()`: kind and length of the token at the front of the input. -/
@@ -152,18 +151,20 @@ def lexOne : List Nat → Step
     else if c = 61 then .tok .eq 1
     else .tok .symbol 1
 
-/-- All tokens, with explicit fuel (one unit per token). A fatal `IdentifierTooLong` ends the
-stream with the marker token `errTooLong` (the real tokenizer returns the error there). -/
+/-- All tokens, with explicit fuel (one unit per token). -/
 def lexF : Nat → List Nat → List Tok
   | 0, _ => []
   | n + 1, s =>
     match lexOne s with
     | .eof => []
-    | .tooLong => [⟨.errTooLong, []⟩]
     | .tok k m => ⟨k, s.take m⟩ :: lexF n (s.drop m)
 
 /-- Every token consumes at least one character, so `s.length` units of fuel are enough. -/
 def lex (s : List Nat) : List Tok := lexF s.length s
+
+/-- `core::name::identifier`: an identifier token used as a name (variable, label, SUB, FUNCTION, TYPE, element)
+is rejected with `IdentifierTooLong` when it has more than 40 characters. -/
+def nameTooLong (t : Tok) : Bool := 40 < t.text.length
 
 /-! ### the separator between statements (`common_separator`) -/
 
